@@ -310,8 +310,37 @@ pub fn perm_base_opts(seed: u64, i: usize, rich: bool) -> Def {
                 def.raw_generics = "<'x>".into();
                 def.extra_logos_items.push(format!("lifetime = {}", rng.pick_str(&["'x", "none"])));
                 def.raw_variants = "    #[token(\"\\u{7}\", gen_cb)]\n    Gen(&'x str),\n".into();
+                if rng.chance(1, 2) {
+                    // the error / extras type mentions the enum's lifetime: what it is rewritten to depends on the
+                    // `lifetime = ..` item, wherever that item stands
+                    def.error = ErrKind::Unit;
+                    let ty = rng.pick_str(&["LtErr<'x>", "Box<&'x str>", "(&'x str, u8)", "Option<&'x [u8]>", "LtErr<'x>"]);
+                    match rng.below(4) {
+                        0 => def.extra_logos_items.push(format!("error = {ty}")),
+                        1 => def.extra_logos_items.push(format!("error({ty}, lt_err_cb)")),
+                        2 => def.extra_logos_items.push(format!("error({ty}, callback = lt_err_cb)")),
+                        _ => {
+                            if !def.has_callbacks() {
+                                def.extra_logos_items.push(format!("extras = {ty}"));
+                            }
+                        }
+                    }
+                }
             }
         }
+    }
+    if rich && rng.chance(1, 16) {
+        // a long attribute (33..44 items): a chain of subpatterns, each defined through the one before, plus the
+        // single-valued items somewhere in between
+        let n = rng.range(31, 40);
+        def.subpats.push(("c0".into(), vmon::spec::Lit::s("[k-m]")));
+        for k in 1..n {
+            def.subpats.push((format!("c{k}"), vmon::spec::Lit::s(&format!("(?&c{})", k - 1))));
+        }
+        def.push(Pat::regex(&format!("@(?&c{})+", n - 1), 0).prio(77));
+        def.utf8_explicit = true;
+        def.family = "perm-long".into();
+        def.normalize();
     }
     if !def.pats.iter().any(|p| p.kind == PatKind::Skip) {
         def.push(Pat::skip("[ \\n]+").prio(3));
@@ -403,6 +432,10 @@ pub fn perm_one(seed: u64, i: usize) -> (usize, usize, Vec<Value>, Option<Value>
         let k = outcome_key(&a);
         if k.0 != k0.0 {
             violations.push(violation("C18", "order-changes-acceptance", &format!("{what}: canonical order is {}, this order is {} ({:?})", k0.0, k.0, k.1.iter().map(|s| s.chars().take(100).collect::<String>()).collect::<Vec<_>>()), d, None, None));
+        } else if k.0 == "rejected" {
+            // rejected in both orders: the property demands nothing further. Which diagnostics accompany the rejection may
+            // depend on the order (an item that fails to parse ends the processing of its attribute; of a single-valued item
+            // given twice the later value is in force while the remaining diagnostics are collected).
         } else if k.1 != k0.1 {
             let g = a.graph.as_ref().map(|g| serde_json::to_string(&g.to_json()).unwrap());
             let detail = if g != g0 { "captured graph / leaves differ" } else { "generated code or diagnostics differ (graph equal)" };
@@ -439,7 +472,27 @@ pub fn perm_one(seed: u64, i: usize) -> (usize, usize, Vec<Value>, Option<Value>
         let mut tried = 0;
         let mut skip_orders_tried = 0;
         let mut canon_product_ok: Option<bool> = None;
-        for perm in permutations(n, 40, &mut rng).into_iter().skip(1) {
+        let mut perms = permutations(n, 40, &mut rng);
+        {
+            // orders built to respect the dependencies (a uniformly random order of many items never does): subpatterns
+            // and skips keep their places relative to each other, every other item is dropped at a random position
+            let subs: Vec<usize> = (0..n).filter(|&k| is_sub(&items[k])).collect();
+            let skips: Vec<usize> = (0..n).filter(|&k| is_skip(&items[k])).collect();
+            let free: Vec<usize> = (0..n).filter(|&k| !is_sub(&items[k]) && !is_skip(&items[k])).collect();
+            if subs.len() + skips.len() >= 4 && !free.is_empty() {
+                for _ in 0..12 {
+                    let mut p: Vec<usize> = subs.iter().chain(skips.iter()).cloned().collect();
+                    let mut fr = free.clone();
+                    rng.shuffle(&mut fr);
+                    for f in fr {
+                        let at = rng.below(p.len() + 1);
+                        p.insert(at, f);
+                    }
+                    perms.insert(1, p);
+                }
+            }
+        }
+        for perm in perms.into_iter().skip(1) {
             // dependency respecting: subpatterns keep their relative order and precede all skips; skips keep their order
             let pos = |idx: usize| perm.iter().position(|&x| x == idx).unwrap();
             let subs: Vec<usize> = (0..n).filter(|&k| is_sub(&items[k])).collect();
@@ -462,9 +515,9 @@ pub fn perm_one(seed: u64, i: usize) -> (usize, usize, Vec<Value>, Option<Value>
                 variants_tried += 1;
                 let a = analyze::run_generate(&d);
                 let k = outcome_key(&a);
-                if k.0 != k0.0 || (k.0 == "rejected" && k.1.len() != k0.1.len()) {
+                if k.0 != k0.0 {
                     violations.push(violation("C18", "skip-order-changes-acceptance", &format!("#[logos(...)] items in order {perm:?} (skips reordered): canonical order is {} with {} diagnostics, this order is {} with {}", k0.0, k0.1.len(), k.0, k.1.len()), &d, None, None));
-                } else if leaf_multiset(&a) != leaf_multiset(&a0) {
+                } else if k.0 == "accepted" && leaf_multiset(&a) != leaf_multiset(&a0) {
                     // every item contributes exactly one leaf whatever the order: same patterns, priorities, kinds
                     violations.push(violation("C18", "skip-order-changes-leaves", &format!("#[logos(...)] items in order {perm:?} (skips reordered): the set of leaves (kind, pattern, priority, callback) differs from the canonical order's: {:?} versus {:?}", leaf_multiset(&a), leaf_multiset(&a0)), &d, None, None));
                 } else if k.0 == "accepted" {
